@@ -1,0 +1,28 @@
+//go:build verif
+
+package ctpolicy
+
+import (
+	"sort"
+
+	"github.com/google/certificate-transparency-go/verifhook"
+)
+
+// simSession lets a simulator fix the contact order of a group. Logs with a
+// zero weight are never candidates, as in GetSubmissionSession.
+func simSession(group *LogGroupInfo) []string {
+	f := verifhook.Session
+	if f == nil {
+		return nil
+	}
+	group.wMu.RLock()
+	urls := make([]string, 0, len(group.LogURLs))
+	for u := range group.LogURLs {
+		if group.LogWeights[u] > 0 {
+			urls = append(urls, u)
+		}
+	}
+	group.wMu.RUnlock()
+	sort.Strings(urls)
+	return f(group.Name, urls)
+}
